@@ -82,6 +82,12 @@ def const_value(init: Spec, shape: tuple[int, ...]) -> Any:
                 )
             if kind == "float32":
                 return rs.uniform(0.2, 1.5, size=shp).astype(np.float32)
+            if kind == "near":
+                # an almost-uniform table: entries differ, but only in the 7th digit
+                return 0.25 + 1e-7 * rs.uniform(-1.0, 1.0, size=shp)
+            if kind == "tiny":
+                # small magnitudes: entries differ by factors, yet all lie below 1e-8
+                return 1e-9 * rs.uniform(1.0, 5.0, size=shp)
             a = rs.uniform(0.2, 1.5, size=shp)
             tw = v.get("tweak")
             if tw == "eps":
